@@ -4,4 +4,5 @@ CONSTANTS
   MaxFields = 3
   MethodLists = "all6"
   Exported = {TRUE}
+  Tagged = {TRUE, FALSE}
 INVARIANTS TypeOK TwinSame GroupingIrrelevant OutputShape Export
